@@ -761,7 +761,10 @@ def to_hashable(  # noqa: C901, PLR0911, PLR0912
 
     # Handle numpy arrays
     if "numpy" in sys.modules and isinstance(obj, sys.modules["numpy"].ndarray):
-        return (m, tp, (obj.shape, obj.dtype.str, tuple(obj.flatten())))
+        flat = obj.flatten()
+        if obj.dtype == object:  # the elements themselves might be unhashable
+            flat = [to_hashable(x, fallback_to_pickle) for x in flat]
+        return (m, tp, (obj.shape, obj.dtype.str, tuple(flat)))
 
     # Handle pandas Series and DataFrames
     if "pandas" in sys.modules:
